@@ -302,10 +302,10 @@ def emits (cfg : Cfg) (ps : List ReqPath) (c : Client) (st : St) : Op → List (
   | .tools => if st.initialized then ([(.request, st.issued)], st) else ([], st)
   | .toolsRetry => if st.initialized then ([(.request, st.issued), (.request, st.issued)], st) else ([], st)
   | .notify =>
+    -- `SendRootsListChangedNotification` refuses to run before a successful handshake (/repo 3f7fc11)
     match c with
-    | .streamable => ([(.notification, st.issued)], st)
-    | .sse => if st.initialized then ([(.notification, st.issued)], st) else ([], st)
     | .other => ([], st)
+    | _ => if st.initialized then ([(.notification, st.issued)], st) else ([], st)
   | .roots | .rootsUnknown => if st.initialized then ([(.answer, st.issued)], st) else ([], st)
   | .terminate =>
     match c with
